@@ -151,7 +151,7 @@ func init() {
 			e.sample("strace not available: kernel conformance skipped")
 			e.distinct["skipped"] = true
 			e.distinct["skipped2"] = true
-			e.evals = 1
+			e.evals.Store(1)
 			return
 		}
 		hs := kernelHistories()
@@ -183,7 +183,7 @@ func init() {
 			}
 			dir, out := run("ref", "")
 			_, rel, _ := parseStrace(out, dir)
-			e.evals++
+			e.evals.Add(1)
 			if len(rel) == 0 {
 				e.sample("strace produced no file-related calls (ptrace not permitted?): kernel conformance skipped")
 				e.distinct["skipped"] = true
@@ -219,7 +219,7 @@ func init() {
 				tag := fmt.Sprintf("k%d", n)
 				kdir, kout := run(tag, strconv.Itoa(s.ord))
 				_, krel, _ := parseStrace(kout, kdir)
-				e.evals++
+				e.evals.Add(1)
 				// the kill must have hit the intended call: exactly n+1 related calls were entered
 				if len(krel) != n+1 || krel[n].kind != s.kind {
 					continue // start-up noise shifted the ordinal: unconfirmed, not judged
